@@ -32,7 +32,7 @@ def sane(spec):
 def cases(tier, seed):
     rng = np.random.default_rng(7000 + seed)
     out = []
-    n = 20 if tier == "quick" else 160
+    n = 20 if tier == "quick" else 480
     for k in range(n):
         ns = int(rng.choice([1, 2]))
         surfs = []
@@ -47,7 +47,7 @@ def cases(tier, seed):
         if rot:
             flow["omega"] = [float(x) for x in np.round(rng.uniform(-0.3, 0.3, 3), 4)]
         out.append(dict(kind="aero_reflect", surfaces=surfs, flow=flow, rotational=rot, compressible=bool(k % 4 == 2), _cost=3 * ns))
-    n = 10 if tier == "quick" else 70
+    n = 10 if tier == "quick" else 210
     for k in range(n):
         fem = "tube" if k % 2 else "wingbox"
         symmetric = bool(k % 2 == 0) if k < n // 2 else bool(k % 3 == 0)
@@ -78,7 +78,7 @@ def cases(tier, seed):
                 c["pm_loc"] = [[float(rng.uniform(-1, 2)), float(rng.uniform(-0.9, 0.9) * b2), float(rng.uniform(-0.5, 0.5))] for _ in range(npm)]
                 c["thrust"] = [float(x) for x in 10 ** rng.uniform(2, 4, npm)]
         out.append(c)
-    n = 16 if tier == "quick" else 120
+    n = 16 if tier == "quick" else 360
     for k in range(n):
         ns = int(rng.choice([1, 2]))
         surfs = []
@@ -97,7 +97,7 @@ def cases(tier, seed):
         flip = [True] * ns if k % 2 == 0 else [bool(i % 2 == (k // 2) % 2) for i in range(ns)]
         out.append(dict(kind="halves", surfaces=surfs, flow=flow, compressible=bool(k % 4 == 1), flip=flip, _cost=3 * ns))
     dvs = ["span", "sweep", "dihedral", "taper", "chord_cp", "twist_cp", "xshear_cp", "yshear_cp", "zshear_cp"]
-    reps = 2 if tier == "quick" else 10
+    reps = 2 if tier == "quick" else 30
     for rep in range(reps):
         for dv in dvs:
             spec = M.random_spec(rng, half="left", nx=int(rng.integers(2, 4)), ny=int(rng.integers(3, 8)))
@@ -109,7 +109,7 @@ def cases(tier, seed):
                 cps = np.round(rng.uniform(0.5, 1.5, ncp) if dv == "chord_cp" else rng.uniform(-1, 1, ncp) * (5 if dv == "twist_cp" else 0.5), 3)
                 val = [float(x) for x in cps]
             out.append(dict(kind="dv_halves", dv=dv, mesh=spec, val=val))
-    for k in range(6 if tier == "quick" else 40):
+    for k in range(6 if tier == "quick" else 120):
         out.append(dict(kind="monotonic", ny=int(rng.integers(2, 12)), full=bool(k % 2), seed=int(rng.integers(1 << 30))))
     return out
 
